@@ -73,6 +73,20 @@ def spell_all(ns, ordinal):
     return res
 
 
+_variant = []
+
+
+def variant():
+    """Which modelled variant of `__get_int_value` the working tree follows (DESIGN 2.5): 1 = the end-word scan
+    reaches index 0 and an empty slice counts once (findings/num/int-value-leading-round.diff), 0 = the code as
+    first found. Probe: ['thousand', 'hundred'] is 1100 under the repaired code and 100000 under the old one."""
+    if not _variant:
+        parser = numlib.models('en-us')['number'].parser
+        v = int(parser._BaseNumberParser__get_int_value(['thousand', 'hundred']))
+        _variant.append(1 if v == 1100 else 0)
+    return _variant[0]
+
+
 def giv_impl(parser, toks):
     try:
         v = parser._BaseNumberParser__get_int_value(list(toks))
@@ -95,7 +109,7 @@ def unit_english(ctx, spelled):
         if got != toks:
             ctx.report('correspondence', 'tokenise-en', 'text_number_regex on %r: %r, generator tokens %r' % (text, got, toks),
                        failing_input={'text': text, 'implementation': got, 'model': toks})
-        lines.append('n.giv\t%s\t%s' % (cps('en-us'), '\t'.join(cps(t) for t in toks)))
+        lines.append('n.giv\t%s\t%d\t%s' % (cps('en-us'), variant(), '\t'.join(cps(t) for t in toks)))
         a, _ = giv_impl(parser, toks)
         impl.append(a)
         meta.append((n, toks))
@@ -140,7 +154,7 @@ def unit_tokens(ctx):
             if v is not None and abs(v) >= 10 ** 15:
                 ctx.count('int-value-skipped-over-15-digits')
                 continue
-            lines.append('n.giv\t%s\t%s' % (cps(cu), '\t'.join(cps(t) for t in toks)))
+            lines.append('n.giv\t%s\t%d\t%s' % (cps(cu), variant(), '\t'.join(cps(t) for t in toks)))
             impl.append(a)
             meta.append((cu, toks))
         # resolve_composite_number
@@ -232,6 +246,31 @@ def judge(res, text, offset, n, g_mark):
     return None, ''
 
 
+import re as _stdre
+
+
+def word_class(cu, text):
+    """The word class a recorded finding is keyed by (so that a different defect of the same culture is not hidden
+    behind a recorded signature)."""
+    if cu == 'fr-fr':
+        return 'plural-cents' if 'cents' in text else 'hyphenated' if '-' in text else 'other'
+    if cu == 'it-it':
+        return 'accented-tre' if 'tré' in text else 'other'
+    if cu == 'pt-br':
+        return 'catorze' if 'catorze' in text else 'other'
+    if cu == 'ja-jp':
+        if _stdre.search(r'(^|[百千万億])十', text):
+            return 'bare-ten'
+        if '億' in text:
+            return 'oku'
+        if '万' in text:
+            return 'man'
+        if _stdre.search(r'(^|[千万億])百|(^|[万億])千', text):
+            return 'bare-unit'
+        return 'other'
+    return 'other'
+
+
 def size_class(n):
     return 'lt100' if n < 100 else 'lt1000' if n < 1000 else 'lt10^6' if n < 10 ** 6 else 'ge10^6'
 
@@ -254,7 +293,7 @@ def pipeline_english(ctx, spelled):
     ctx.count('pipeline-en-cardinal', sum(1 for m in meta if m[2] == 'number'))
     ctx.count('pipeline-en-ordinal', sum(1 for m in meta if m[2] == 'ordinal'))
     # the model's resolution string for the same tokens
-    lines = ['n.tres\t%s\t15\t%s' % (cps('en-us'), '\t'.join(cps(t) for t in m[6])) for m in meta]
+    lines = ['n.tres\t%s\t%d\t15\t%s' % (cps('en-us'), variant(), '\t'.join(cps(t) for t in m[6])) for m in meta]
     ul = list(dict.fromkeys(lines))
     pred = dict(zip(ul, common.driver(ul)))
     for (n, v, kind, text, q, off, toks), res, line in zip(meta, results, lines):
@@ -299,7 +338,7 @@ def pipeline_other(ctx):
             ctx.nontriv((cu, q))
         bad, detail = judge(res, text, off, n, None)
         if bad:
-            ctx.report('property', '%s:cardinal:%s:%s' % (cu, size_class(n), bad), 'number(%r, %s): %s' % (q, cu, detail),
+            ctx.report('property', '%s:cardinal:%s:%s' % (cu, word_class(cu, text), bad), 'number(%r, %s): %s' % (q, cu, detail),
                        failing_input={'culture': cu, 'model': 'number', 'query': q, 'numeral': text, 'denotes': n,
                                       'result': res}, property_fails=True)
 
@@ -325,6 +364,7 @@ def correspond(ctx):
     pipeline_english(ctx, spelled)
     pipeline_other(ctx)
     ctx.extra['english_values'] = len(ns)
+    ctx.extra['int_value_variant'] = 'repaired (scan reaches index 0)' if variant() else 'as first found (index 0 never an end word)'
 
 
 def search(ctx, proof_problems):
